@@ -1,5 +1,5 @@
-\* spec mutation (W_Avail = TRUE  W_Overhead = TRUE  W_Ports = TRUE  W_KeepTerm = FALSE  W_Override = TRUE  W_Refilter = TRUE): TLC must violate Inv_C01_RequiredTermNeverDropped
+\* spec mutation (W_Avail = TRUE  W_Overhead = TRUE  W_Ports = TRUE  W_KeepTerm = FALSE  W_Override = TRUE  W_Refilter = TRUE  W_InitTaints = TRUE): TLC must violate Inv_C01_RequiredTermNeverDropped
 CONSTANTS NPods = 1  PodArchs = {4,5}  Catalogs = {1}  PoolSets = {1}  Existings = {0}  Daemons = {0}
-CONSTANTS W_Avail = TRUE  W_Overhead = TRUE  W_Ports = TRUE  W_KeepTerm = FALSE  W_Override = TRUE  W_Refilter = TRUE
+CONSTANTS W_Avail = TRUE  W_Overhead = TRUE  W_Ports = TRUE  W_KeepTerm = FALSE  W_Override = TRUE  W_Refilter = TRUE  W_InitTaints = TRUE
 SPECIFICATION Spec
 INVARIANTS Inv_C01_NoOvercommit Inv_C01_EveryLaunchOptionHostsItsPods Inv_C01_RequiredTermNeverDropped
